@@ -853,6 +853,55 @@ pub fn run_c12(rep: &mut Report) {
                 }
             }
         }
+        // a key that was held for a very long time (a book on the keyboard), then another key, then its release: the
+        // single-witness characters must still be typed by their key afterwards
+        {
+            let mut held_probes = 0u64;
+            let repeats: u32 = if light() { 70_000 } else { 131_100 };
+            for b in 0..10usize {
+                let mut wit: BTreeMap<char, Vec<(KeyCode, usize)>> = BTreeMap::new();
+                for (ki, key) in plain.iter() {
+                    for (lv, (m, _)) in level_keys.iter().enumerate() {
+                        if let Some(c) = enc_char(cube.get(b, 0, *ki, 1, B_NUMLOCK | m)) {
+                            if (' '..='~').contains(&c) && cube.get(b, 0, *ki, 0, B_NUMLOCK | m) == c as u32 {
+                                wit.entry(c).or_default().push((*key, lv));
+                            }
+                        }
+                    }
+                }
+                for (c, v) in wit.iter().filter(|(_, v)| v.len() == 1).take(if rep.thorough() { 95 } else { 12 }) {
+                    let (key, lv) = v[0];
+                    let r = guarded(|| {
+                        let mut dec = EventDecoder::new(any_value(b), HandleControl::Ignore);
+                        if let Some(mk) = level_keys[lv].1 {
+                            let _ = dec.process_keyevent(KeyEvent::new(mk, KeyState::Down));
+                        }
+                        for _ in 0..repeats {
+                            let _ = dec.process_keyevent(KeyEvent::new(key, KeyState::Down));
+                        }
+                        let other = if key == KeyCode::F1 { KeyCode::F2 } else { KeyCode::F1 };
+                        let _ = dec.process_keyevent(KeyEvent::new(other, KeyState::Down));
+                        let _ = dec.process_keyevent(KeyEvent::new(other, KeyState::Up));
+                        let _ = dec.process_keyevent(KeyEvent::new(key, KeyState::Up));
+                        dec.process_keyevent(KeyEvent::new(key, KeyState::Down))
+                    });
+                    held_probes += 1;
+                    rep.evaluations += repeats as u64;
+                    let Ok(got) = r else { continue };
+                    if got != Some(DecodedKey::Unicode(*c)) {
+                        rep.violate(
+                            format!("C12|via-decoder|{}|after-long-hold|missing=U+{:04X}", layout_name(b), *c as u32),
+                            format!(
+                                "EventDecoder<AnyLayout>: {} types '{}' (U+{:04X}) only with {:?} at the {} level; after that key was held for {} repeats, another key was typed and the key was released, its next press gives {} – the character can no longer be typed",
+                                layout_name(b), c, *c as u32, key, ["unshifted", "shifted", "AltGr"][lv], repeats, odk_str(&got)
+                            ),
+                            J::obj().with("kind", J::s("ascii-after-long-hold")).with("layout", J::s(layout_name(b))).with("char", J::u(*c as u64)).with("key", J::s(kname(key))).with("repeats", J::u(repeats as u64)),
+                        );
+                    }
+                }
+            }
+            rep.count("single_witness_characters_typed_after_a_long_hold", held_probes);
+        }
         rep.count("single_witness_characters_typed_after_layout_switches", probes);
     }
     rep.count("ascii_characters_with_a_witness_key", witnesses);
